@@ -123,6 +123,36 @@ TRACE_CFG = dict(spec="TraceSpec", constants={
     "Deviations": "<- DevNone"}, invariants=("NoDuplicateRecord", "TocSound", "TocComplete", "KeyLenOK", "OneWriter"))
 
 
+BK_TRACE_CFG = dict(spec="TraceSpec", constants={
+    "Key": "<- TraceKeys", "Val": "<- TraceVals", "KeyLen": "<- TraceKLen", "ValLen": "<- TraceVLen", "Coll": "<- TraceColl",
+    "RO": "<- TraceRO", "Buf": "<- TraceBuf", "Hdr": "<- HdrT", "NoHdr": '"none"', "MaxRecs": 100000, "Deviations": "<- DevNone"},
+    invariants=("NoDuplicateRecord", "KeyLenOK", "ListedIsReadable", "ListedIsPut", "SessionSeesAll", "ClosedWhenIdle"))
+
+
+def direction_b_backend(tier, seed, ev, rep):
+    """Seeded random histories on real Collection objects, validated by TLC against Backend.tla."""
+    from ..drivers_backend import history
+    from .. import trace as T
+    n, length = (6, 150) if tier == "quick" else (60, 400)
+    traces = [history(seed * 1000 + 500 + i, length) for i in range(n)]
+    verdicts, results = T.validate("BackendTrace", traces, BK_TRACE_CFG, chunk=1, par=6, tag="c02btr")
+    ev.add_tlc(results[0], "BackendTrace validation (first batch)")
+    bad = 0
+    for t in traces:
+        v, l = verdicts[t["tid"]]
+        if v != "ACCEPT":
+            bad += 1
+            e = t["ev"][l - 1]
+            rep.violation("backend-trace", {"seed": int(t["tid"].split("-")[1]), "length": length, "stuck_at": l, "event": e,
+                                            "config": {"ro": t["ro"], "buf": t["buf"]}, "context": t["ev"][max(0, l - 6):l + 1]},
+                          what=f"{t['tid']}: event {l} is not a step of Backend: {json.dumps(e)[:300]}")
+    nev = sum(len(t["ev"]) for t in traces)
+    ev.count(evaluations=nev, distinct_nontrivial=nev, traces=len(traces))
+    ev.add_samples([{"direction": "B/collection", "events": traces[0]["ev"][10:14]}], 1)
+    ev.set(random_collection_histories={"traces": len(traces), "events": nev, "rejected": bad})
+    rep.note(f"direction B (collections): {len(traces)} random histories, {nev} events, {bad} rejected")
+
+
 def direction_b(tier, seed, ev, rep):
     """Seeded random long histories on real UKVFile objects, validated by TLC against UKVFile.tla."""
     from ..drivers_ukv import history
@@ -157,6 +187,7 @@ def run(tier, seed, replay_path):
     raw_layer(tier, seed, ev, rep)
     backend_layer(tier, seed, ev, rep)
     direction_b(tier, seed, ev, rep)
+    direction_b_backend(tier, seed, ev, rep)
     ev.set(rule="one case = one (spec state, action) pair of the bounded TLC graph replayed on real objects; "
                 "non-trivial = distinct pair; evaluations = real calls made")
     ev.assumptions += ["scope: one writable handle at a time (collection lock), mode 'w' re-creation not generated",
@@ -167,6 +198,16 @@ def run(tier, seed, replay_path):
 def do_replay(path):
     doc = json.loads(open(path).read())
     kind = doc["kind"]
+    if kind == "backend-trace":
+        from ..drivers_backend import history
+        from .. import trace as T
+        t = history(doc["seed"], doc["length"])
+        verdicts, _ = T.validate("BackendTrace", [t], BK_TRACE_CFG, chunk=1, tag="c02rp")
+        print(json.dumps(verdicts))
+        if verdicts[t["tid"]][0] != "ACCEPT":
+            print(f"VIOLATION property={PROP} replay={path}")
+            return 1
+        return 0
     if kind == "ukv-trace":
         from ..drivers_ukv import history
         from .. import trace as T
